@@ -2009,6 +2009,35 @@ def rule_netblock(repo):
         raise AnalysisError(f"{gq}: the rendered source {SRC} is never compiled")
     FN = CALL.func.id
     gpos = [k for k, a_ in enumerate(CALL.args) if isinstance(a_, ast.Name) and a_.id != SRC]
+    # the namespace a net block is compiled in (it binds `s` to the block's own common ancestor) belongs to that one net: it is
+    # built inside the loop iteration, not fetched from a container that outlives it (all blocks sharing it would act on the
+    # component bound last)
+    shared = []
+    for a_ in CALL.args:
+        if not isinstance(a_, ast.Name) or a_.id == SRC:
+            continue
+        defs = [st for st in ast.walk(glp) if isinstance(st, ast.Assign) and any(isinstance(t, ast.Name) and t.id == a_.id for t in st.targets)]
+        assigned_in_loop = {t.id for d in ast.walk(glp) if isinstance(d, ast.Assign) for t in d.targets if isinstance(t, ast.Name)}
+        for st in defs:
+            v = st.value
+            if isinstance(v, (ast.Dict, ast.DictComp)) or (isinstance(v, ast.Call) and norm(v.func) == 'dict'):
+                continue                                    # built for this net
+            base = None
+            if isinstance(v, ast.Subscript):
+                base = v.value
+            elif isinstance(v, ast.Call) and isinstance(v.func, ast.Attribute) and v.func.attr in ('setdefault', 'get'):
+                base = v.func.value
+            while isinstance(base, (ast.Subscript, ast.Attribute)):
+                base = base.value
+            if isinstance(base, ast.Name) and base.id not in assigned_in_loop:
+                shared.append((a_.id, st))
+    if shared:
+        nm, st = shared[0]
+        r.bad(gm, gq, f"namespace `{nm}` of the generated net block", f"`{norm(st)[:90]}`: the namespace the block is compiled in is taken from a container that "
+              f"outlives the loop iteration, so several net blocks share it and `s` is overwritten for all of them: every block of that group then "
+              f"reads and writes the signals of the component bound LAST (the other instances' nets are never driven)", st.lineno)
+        r.require_floor(1)
+        return r
     stmts = body[:_index(body, comp_st) + 1]
     skips = [st for st in stmts if isinstance(st, ast.If) and not st.orelse and always_exits(st.body) and
              any(isinstance(x, ast.Continue) for x in walk_no_nested(st))]
@@ -2594,7 +2623,23 @@ def rule_net_blocks_scheduled(repo):
     return rule_kahn(repo)
 
 
-RULES = [rule_scc_template, rule_net_blocks_scheduled, rule_symmetric, rule_const, rule_nodes, rule_flood, rule_seed, rule_unique, rule_propagate, rule_residence, rule_netblock, rule_overlap,
+def rule_drivers_detected_everywhere(repo):
+    """a net's writer is found from the write sets of the update blocks: a signal assigned only in a for-else clause (or any other
+    statement position) must be recorded as driven, or the net ends without a writer / with the wrong one -- decided by C02
+    (R-C02-visitor)"""
+    from rules.c02 import rule_visitor
+    return rule_visitor(repo)
+
+
+def rule_struct_values_not_shared(repo):
+    """net members of a struct type each hold their own value object, nested structs included: a nested default built once and
+    shared by all default-constructed structs makes a write to one net member show up in unrelated signals -- decided by C06
+    (R-C06-init)"""
+    from rules.c06 import rule_init
+    return rule_init(repo)
+
+
+RULES = [rule_drivers_detected_everywhere, rule_struct_values_not_shared, rule_scc_template, rule_net_blocks_scheduled, rule_symmetric, rule_const, rule_nodes, rule_flood, rule_seed, rule_unique, rule_propagate, rule_residence, rule_netblock, rule_overlap,
          rule_pending_flag, rule_ancestors, rule_collectors, rule_ifc_symmetric, rule_net_ordering, rule_writer_via_helpers,
          rule_names_denote_storage, rule_replace_keeps_nets, rule_replace_filters, rule_byname, rule_nets_readonly, rule_scc_watch, rule_tick_settles, rule_const_value_fits, rule_replace_registers_slices, rule_index_names, rule_late_signals_registered]
 
@@ -2606,6 +2651,9 @@ def _m(name, file, old, new, rule=None, count=1):
 
 
 MUTANTS = [
+    dict(name='gen-net-block-namespace-shared-per-class', rule='R-C08-netblock', edits=[
+        dict(file=GENDAG, old="      _globals = {'s': wr_lca }\n", new="      _globals = net_globals.setdefault( type(wr_lca), {} )\n      _globals['s'] = wr_lca\n", count=1),
+        dict(file=GENDAG, old="    for writer, signals in nets:\n", new="    net_globals = {}\n    for writer, signals in nets:\n", count='first')]),
     _m('gen-aliased-readers-chosen-by-not-sliced', GENDAG, "          if x.is_top_level_signal():\n", "          if not x.is_sliced_signal():\n", 'R-C08-residence', count='first'),
     _m('nets-residence-discarded-in-place', 'pymtl3/passes/sim/PrepareSimPass.py', "        for x in signals:\n          if x is not residence and x.is_top_level_signal():", "        signals.discard( residence )\n        for x in signals:\n          if x.is_top_level_signal():", 'R-C08-nets-readonly'),
     _m('byname-nested-lists-not-recursed', L3, "          for i in range(len(this_obj)):\n            # TODO add error message if other_obj is not a list\n            recursive_connect( this_obj[i], other_obj[i] )",
